@@ -107,6 +107,8 @@ def build():
         ensures r.inner.sock == ep, r.inner.error is None, // [C10,C06] a new proxy has no recorded failure and uses the caller's endpoint""")
     for name, c in METHODS.items():
         u.extracted_fn(gb, name, within=span, sig_rw=SIG_RW, body_rw=BODY_RW, contract=c)
+    u.extracted_fn(gb, "set_failed", within=span, sig_rw=SIG_RW, body_rw=BODY_RW, contract="""
+        ensures final(self).acq@ == old(self).acq@ + 1, final(self).inner.error == Some(error), final(self).inner.sock == old(self).inner.sock, // [C10,C06] the failure is recorded (check_state then refuses every request); no socket traffic""")
     u.raw("}")
     u.raw("fn main() {}\n} // verus!")
     return u
